@@ -9,6 +9,13 @@
 // MockSupport's xReturnValue / returnXValueOrDefault; the C table's accessors on the actual call and on mock_c(); the
 // MockValue_c union of ->returnValue()), the value having been stored with andReturnValue(T) (:cpp) or the C table's
 // andReturnXValue (:c).  Prints what came back, canonically (":fail" = the test failed / the union's tag names another member).
+// ":ru <box> <family> <nA> <stored value>*nA <nB> <stored value>*nB": RE-USED value objects.  Object A lives in the box -- :named a
+// MockNamedValue (setValue / setMemoryBuffer nA times), :ret / :retc the return value of ONE expectation (andReturnValue / the C
+// table's andReturnXValue nA times), :data / :datac ONE slot of mock().setData / mock_c()->setXData (nA times under one name) -- and receives the nA stores in
+// order; object B is a MockNamedValue that receives the nB stores.  Printed: A.equals(B) B.equals(A) (A = the MockNamedValue itself /
+// actualCall("f").returnValue() / getData("slot")), then what each of the 13 accessors of the family hands back for A (one fixture
+// run per accessor; ":fail" as above).  Strings and buffers live on the heap, so the stale bytes under a later store are real
+// 64-bit addresses with a non-zero upper half.
 #include "CppUTest/TestHarness.h"
 #include "CppUTest/TestTestingFixture.h"
 #include "CppUTestExt/MockNamedValue.h"
@@ -256,6 +263,20 @@ static std::string readTagged(const MockValue_c& v)
     return ":fail";
 }
 
+// the actual call "f" made through the interface of the family, ONE accessor called
+static std::string readThroughFamily()
+{
+    switch (gFam) {
+    case F_AC: case F_ACD: { MockActualCall& a = mock().actualCall("f"); return readActual(a, gFam == F_ACD); }
+    case F_MS: case F_MSD: { mock().actualCall("f"); return readSupport(mock(), gFam == F_MSD); }
+    case F_CAC: case F_CACD: { MockActualCall_c* a = mock_c()->actualCall("f"); return readCTable(a, gFam == F_CACD); }
+    case F_CMS: case F_CMSD: { mock_c()->actualCall("f"); return readCTable(mock_c(), gFam == F_CMSD); }
+    case F_CACT: { MockActualCall_c* a = mock_c()->actualCall("f"); return readTagged(a->returnValue()); }
+    case F_CMST: { mock_c()->actualCall("f"); return readTagged(mock_c()->returnValue()); }
+    default: break;
+    }
+    return ":fail";
+}
 static void readBody()
 {
     if (gFam == F_NV) {
@@ -268,15 +289,7 @@ static void readBody()
     if (gViaC) storeC(mock_c()->expectOneCall("f"), gSt);
     else storeCpp(mock().expectOneCall("f"), gSt);
     // the actual call, and the read
-    switch (gFam) {
-    case F_AC: case F_ACD: { MockActualCall& a = mock().actualCall("f"); gOut = readActual(a, gFam == F_ACD); break; }
-    case F_MS: case F_MSD: { mock().actualCall("f"); gOut = readSupport(mock(), gFam == F_MSD); break; }
-    case F_CAC: case F_CACD: { MockActualCall_c* a = mock_c()->actualCall("f"); gOut = readCTable(a, gFam == F_CACD); break; }
-    case F_CMS: case F_CMSD: { mock_c()->actualCall("f"); gOut = readCTable(mock_c(), gFam == F_CMSD); break; }
-    case F_CACT: { MockActualCall_c* a = mock_c()->actualCall("f"); gOut = readTagged(a->returnValue()); break; }
-    case F_CMST: { mock_c()->actualCall("f"); gOut = readTagged(mock_c()->returnValue()); break; }
-    default: break;
-    }
+    gOut = readThroughFamily();
 }
 static void readTeardown() { mock().clear(); }
 
@@ -307,12 +320,168 @@ static bool runRead(Toks& t, Out& o)
     return true;
 }
 
+// ---------------------------------------------------------------------------------------------------------------------
+// re-used value objects
+enum Box { B_NAMED, B_RET, B_RETC, B_DATA, B_DATAC };
+static Box gBox; static std::vector<Stored> gStA, gStB; static MockNamedValue* gB;
+static int gCursor;                         // the next task: -1 the two comparisons, 0..12 the accessors
+static std::string gTaskRes[14];
+
+// A failed STRCMP_EQUAL (the guard of every getter) costs ~100 us in building and printing the text of the failure; a re-use scenario
+// makes up to thirteen of them.  This shell runs the body as ExecFunctionTestShell does, decides a string comparison with the library's
+// own StrCmp, hands an EQUAL comparison on to the library, and leaves a DIFFERENT one by an exception of its own instead of the failure
+// text.  Every other kind of failure (CHECK, FAIL, a mock failure) takes the library's path and is counted by the test result.
+struct GetterFailed {};
+class QuietShell : public ExecFunctionTestShell
+{
+public:
+    virtual void assertCstrEqual(const char* expected, const char* actual, const char* text, const char* fileName, size_t lineNumber,
+                                 const TestTerminator& testTerminator) CPPUTEST_OVERRIDE
+    {
+        bool same = (expected == 0 && actual == 0) || (expected != 0 && actual != 0 && SimpleString::StrCmp(expected, actual) == 0);
+        if (same) { UtestShell::assertCstrEqual(expected, actual, text, fileName, lineNumber, testTerminator); return; }
+        getTestResult()->countCheck();
+        throw GetterFailed();
+    }
+};
+struct MiniFixture {
+    StringBufferTestOutput out; TestResult* res; QuietShell shell; TestRegistry reg;
+    MiniFixture(void (*body)(), void (*teardown)()) : res(0)
+    {
+        shell.testFunction_ = new ExecFunctionWithoutParameters(body); shell.teardown_ = teardown;
+        reg.addTest(&shell);
+    }
+    size_t run()
+    {
+        out.flush(); delete res; res = new TestResult(out);
+        reg.setCurrentRegistry(&reg);
+        reg.runAllTests(*res);
+        reg.setCurrentRegistry(0);
+        return res->getFailureCount();
+    }
+};
+
+static void storeData(const Stored& s)
+{
+    if (s.tag == ":b") mock().setData("slot", s.b);
+    else if (s.tag == ":i" && s.ity == 0) mock().setData("slot", (int)s.z);
+    else if (s.tag == ":i" && s.ity == 1) mock().setData("slot", (unsigned int)s.z);
+    else if (s.tag == ":d") mock().setData("slot", s.d);
+    else if (s.tag == ":s") mock().setData("slot", s.str);
+    else if (s.tag == ":p") mock().setData("slot", (void*)s.addr);
+    else if (s.tag == ":cp") mock().setData("slot", (const void*)s.addr);
+    else if (s.tag == ":f") mock().setData("slot", (fptr_t)s.addr);
+    else { fprintf(stderr, "setData has no overload for this value\n"); exit(3); }
+}
+static void storeDataC(const Stored& s)
+{
+    if (s.tag == ":b") mock_c()->setBoolData("slot", s.b ? 1 : 0);
+    else if (s.tag == ":i" && s.ity == 0) mock_c()->setIntData("slot", (int)s.z);
+    else if (s.tag == ":i" && s.ity == 1) mock_c()->setUnsignedIntData("slot", (unsigned int)s.z);
+    else if (s.tag == ":d") mock_c()->setDoubleData("slot", s.d);
+    else if (s.tag == ":s") mock_c()->setStringData("slot", s.str);
+    else if (s.tag == ":p") mock_c()->setPointerData("slot", (void*)s.addr);
+    else if (s.tag == ":cp") mock_c()->setConstPointerData("slot", (const void*)s.addr);
+    else if (s.tag == ":f") mock_c()->setFunctionPointerData("slot", (fptr_t)s.addr);
+    else { fprintf(stderr, "the C table has no setXData for this value\n"); exit(3); }
+}
+// the tasks from gCursor on, A given as a MockNamedValue
+static void judgeNamed(const MockNamedValue& a)
+{
+    for (; gCursor < 13; gCursor++) {
+        if (gCursor < 0) { gTaskRes[0] = std::string(a.equals(*gB) ? "1" : "0") + " " + (gB->equals(a) ? "1" : "0"); continue; }
+        gAcc = (Acc)gCursor;
+        try { gTaskRes[gCursor + 1] = readNamed(a); } catch (GetterFailed&) { gTaskRes[gCursor + 1] = ":fail"; }
+    }
+}
+static void reuseBody()
+{
+    switch (gBox) {
+    case B_NAMED: {
+        MockNamedValue a("a");
+        for (size_t k = 0; k < gStA.size(); k++) storeNamed(a, gStA[k]);
+        judgeNamed(a);
+        break; }
+    case B_DATA: case B_DATAC: {
+        for (size_t k = 0; k < gStA.size(); k++) if (gBox == B_DATAC) storeDataC(gStA[k]); else storeData(gStA[k]);
+        MockNamedValue a = mock().getData("slot");
+        judgeNamed(a);
+        break; }
+    case B_RET: case B_RETC: {
+        if (gBox == B_RETC) { MockExpectedCall_c* e = mock_c()->expectOneCall("f"); for (size_t k = 0; k < gStA.size(); k++) storeC(e, gStA[k]); }
+        else { MockExpectedCall& e = mock().expectOneCall("f"); for (size_t k = 0; k < gStA.size(); k++) storeCpp(e, gStA[k]); }
+        // ONE actual call, made through the interface of the family; the comparisons on the MockNamedValue it hands back
+        MockActualCall* ac = 0; MockActualCall_c* cac = 0;
+        switch (gFam) {
+        case F_CAC: case F_CACD: case F_CACT: cac = mock_c()->actualCall("f"); break;
+        case F_CMS: case F_CMSD: case F_CMST: mock_c()->actualCall("f"); break;
+        default: ac = &mock().actualCall("f"); break;
+        }
+        if (gFam == F_NV) { MockNamedValue a = ac->returnValue(); judgeNamed(a); break; }
+        for (; gCursor < 13; gCursor++) {
+            if (gCursor < 0) { MockNamedValue a = mock().returnValue(); gTaskRes[0] = std::string(a.equals(*gB) ? "1" : "0") + " " + (gB->equals(a) ? "1" : "0"); continue; }
+            gAcc = (Acc)gCursor;
+            if (gAcc == A_MEM) { gTaskRes[gCursor + 1] = ":fail"; continue; }            // no such accessor
+            try {
+                std::string r;
+                switch (gFam) {
+                case F_AC: case F_ACD: r = readActual(*ac, gFam == F_ACD); break;
+                case F_MS: case F_MSD: r = readSupport(mock(), gFam == F_MSD); break;
+                case F_CAC: case F_CACD: r = readCTable(cac, gFam == F_CACD); break;
+                case F_CMS: case F_CMSD: r = readCTable(mock_c(), gFam == F_CMSD); break;
+                case F_CACT: r = readTagged(cac->returnValue()); break;
+                default: r = readTagged(mock_c()->returnValue()); break;
+                }
+                gTaskRes[gCursor + 1] = r;
+            } catch (GetterFailed&) { gTaskRes[gCursor + 1] = ":fail"; }
+        }
+        break; }
+    }
+}
+static bool runReuse(Toks& t, Out& o)
+{
+    if (t.end() || t.t[t.i] != ":ru") return false;
+    t.next();
+    static const char* boxes[] = { ":named", ":ret", ":retc", ":data", ":datac" };
+    static const char* fams[] = { ":nv", ":ac", ":acd", ":ms", ":msd", ":cac", ":cacd", ":cms", ":cmsd", ":cact", ":cmst" };
+    std::string b = t.next(), f = t.next();
+    int bi = -1, fi = -1;
+    for (int k = 0; k < 5; k++) if (b == boxes[k]) bi = k;
+    for (int k = 0; k < 11; k++) if (f == fams[k]) fi = k;
+    if (bi < 0 || fi < 0 || ((bi == B_NAMED || bi == B_DATA || bi == B_DATAC) && fi != F_NV)) { fprintf(stderr, "bad reuse scenario\n"); exit(3); }
+    gBox = (Box)bi; gFam = (Fam)fi; gViaC = false;
+    keep.reserve(64);                          // the payload pointers handed to the setters must stay where they are
+    gStA.clear(); gStB.clear();
+    size_t nA = t.u(); if (nA < 1 || nA > 24) { fprintf(stderr, "bad store count\n"); exit(3); }
+    for (size_t k = 0; k < nA; k++) { Stored s; parseStored(t, s); if (!s.set) exit(3); gStA.push_back(s); }
+    size_t nB = t.u(); if (nB < 1 || nB > 24) { fprintf(stderr, "bad store count\n"); exit(3); }
+    for (size_t k = 0; k < nB; k++) { Stored s; parseStored(t, s); if (!s.set) exit(3); gStB.push_back(s); }
+    // defaults for the OrDefault families: never to be handed back, a value is always stored
+    gD = Dflt(); gD.b = false; gD.z = 0x4d; gD.d = 77.0; gD.s = "dflt"; gD.a = 0x2000;
+    MockNamedValue vb("b");
+    for (size_t k = 0; k < gStB.size(); k++) storeNamed(vb, gStB[k]);
+    gB = &vb;
+    static MiniFixture* fx = 0;
+    if (!fx) fx = new MiniFixture(reuseBody, readTeardown);
+    gTaskRes[0] = ":fail :fail"; for (int k = 1; k < 14; k++) gTaskRes[k] = ":fail";
+    gCursor = -1;
+    for (int runs = 0; gCursor < 13 && runs < 16; runs++) {
+        fx->run();                             // a failure that took the library's path ended the body at task gCursor: that task failed
+        mock().clear();
+        if (gCursor < 13) gCursor++;
+    }
+    for (int k = 0; k < 14; k++) o << gTaskRes[k];
+    o.flush();
+    return true;
+}
+
 int main()
 {
     Toks t; Out o;
     while (readline(t)) {
         keep.clear(); keep.reserve(4);
         if (runRead(t, o)) continue;
+        if (runReuse(t, o)) continue;
         MockNamedValue a("a"), b("b");
         if (!buildAliased(t, a, b)) { build(t, a); build(t, b); }
         o << (a.equals(b) ? "1" : "0") << (b.equals(a) ? "1" : "0");
